@@ -40,7 +40,39 @@ def fixed_only_spec(rng):
     return {'grid': g, 'assets': assets, 'prices': gen.gen_prices(rng, T, ['p0'], kind='normal')}
 
 
+def run_slp_case(rng, tier, case):
+    """every solution returned: also the two-stage stochastic program (make_slp -> optimize -> extract_output) - the reported dispatch (present part plus
+    the mean over the scenario copies of the future part) nets to zero at every node and step, because every scenario's balance does."""
+    import eaopack.io as eio
+    import eaopack.stoch_lin_prog as SLP
+    from ..spec import build
+    spec = gen.strip_private(gen.gen_lp_portfolio(rng, grid_kw={'steps': (6, 18)}, types=('contract', 'transport', 'transport', 'storage', 'multi', 'multi'), n_assets=(2, 5), n_nodes=(2, 3)))
+    case.feature('slp')
+    for t in gen.asset_types(spec):
+        case.feature('type:' + t)
+    case.key = env.spec_key([spec, 'slp']); case.sample = dict(gen.abbreviate(spec), slp=True); case.spec = spec
+    try:
+        with env.quiet():
+            b = build(spec); P, tg = b.portfolio, b.timegrid
+            k = int(rng.integers(1, tg.T))
+            samples = [{q: np.asarray(v, float) for q, v in gen.gen_prices(rng, tg.T, sorted(spec['prices'])).items()} for _ in range(int(rng.integers(1, 4)))]
+            op = SLP.make_slp(P.setup_optim_problem(b.prices, tg), P, tg, tg.timepoints[k], samples)
+            res = op.optimize()
+    except Exception as e:
+        case.reject('slp set-up / optimise: %s %s' % (type(e).__name__, str(e)[:120])); return
+    if isinstance(res, str):
+        case.inconc('slp not solved: ' + res); return
+    try:
+        with env.quiet():
+            out = eio.extract_output(P, op, res, b.prices)
+    except Exception as e:
+        case.check('balance.slp_extraction_works', False, error='%s: %s' % (type(e).__name__, str(e)[:160])); return
+    case.nontrivial = bool(mon_balance_output(case, P, out, clause='balance.output_slp'))
+
+
 def run_case(rng, tier, case):
+    if rng.random() < 0.07:
+        return run_slp_case(rng, tier, case)
     if rng.random() < 0.04:
         spec = fixed_only_spec(rng)
         if spec is not None:
